@@ -14,6 +14,7 @@ ID = "C06"
 TITLE = "Cell polygons and dataset extent are faithful to the dataset's coordinates"
 MC = {"quick": [("MC_C06", "MC_C06.cfg", 8)], "thorough": [("MC_C06", "MC_C06.cfg", 16)]}
 TRACE = ("Trace_C06", "Trace_C06.cfg")
+REPEAT_EVENTS = 2      # see core.check
 THOROUGH_EXTRA_SEEDS = 2
 RULE = ("one case = one dataset with lattice geometry (per convention: ascending / descending / non-uniform 1-D axes "
         "with stored or derived bounds; rectangular and skewed 2-D grids with stored or derived bounds, NaN holes and a "
